@@ -126,11 +126,16 @@ func TestC17Stack(t *testing.T) {
 				binary := r%2 == 1
 				cl := wire.NewClient(st.Dial(0), binary)
 				defer cl.Close()
-				most := 0
+				most, mine := 0, 0
 				for atomic.LoadInt32(&stop) == 0 {
-					o, err := cl.Do(wire.Cmd{Kind: wire.Get, Keys: []string{key}})
+					mine++
+					c := wire.Cmd{Kind: wire.Get, Keys: []string{key}}
+					if binary && mine%2 == 0 {
+						c = wire.Cmd{Kind: wire.Gat, Key: key, Exptime: 0} // the other command that hands out the stored value
+					}
+					o, err := cl.Do(c)
 					if err != nil || len(o.Hits) != 1 || len(o.Problems) > 0 {
-						report(fmt.Sprintf("reader %d (binary=%v): get of the key: %v %s", r, binary, err, o))
+						report(fmt.Sprintf("reader %d (binary=%v): %s of the key: %v %s", r, binary, c.Kind, err, o))
 						return
 					}
 					n, msg := parseGrown(string(o.Hits[0].Value), seed)
